@@ -296,6 +296,9 @@ func validationCode(att *expr.AttributeExpr, attCtx *AttributeContext, req, alia
 			prim = ut.Attribute().Type
 		}
 		tval = fmt.Sprintf("%s(%s)", prim.Name(), tval)
+		// the kind that matters (e.g. to count runes rather than bytes) is
+		// the one of the primitive
+		kind = prim.Kind()
 	}
 	data := map[string]any{
 		"attribute": att,
